@@ -85,7 +85,20 @@ def harness_dir():
     if not os.path.exists(cf) or open(cf).read() != cfg:
         open(cf, "w").write(cfg)
     src = os.path.join(d, "src")
-    if not os.path.islink(src):
+    if os.environ.get("VERIF_HARNESS_SNAPSHOT") and _repo_tag() != "default":
+        # a run against another copy of the repository may freeze the harness source it started with
+        # (so that edits under way in harness/src do not leak into it)
+        if not os.path.isdir(src) or os.path.islink(src):
+            if os.path.islink(src):
+                os.remove(src)
+            shutil.copytree(os.path.join(ROOT, "harness", "src"), src)
+        # files written by the translators of this very run are always taken over
+        g = os.path.join(ROOT, "harness", "src", "gen")
+        if os.path.isdir(g):
+            os.makedirs(os.path.join(src, "gen"), exist_ok=True)
+            for f in os.listdir(g):
+                shutil.copy(os.path.join(g, f), os.path.join(src, "gen", f))
+    elif not os.path.islink(src):
         os.symlink(os.path.join(ROOT, "harness", "src"), src)
     return d
 
